@@ -295,9 +295,17 @@ impl HCtx {
         let now = chrono::Utc::now().timestamp();
         let raw = run_request(web, &prep);
         let calls = store.take_log().join(",");
-        let pre = self.intrusion_lines(now);
-        self.l1.out.extend(pre);
-        self.finish(prep, raw, now, Some(calls));
+        let after = self.l1.store.as_ref().map(|st| st.intrude.lock().unwrap().as_ref().map(|i| i.after_commit).unwrap_or(false)).unwrap_or(false);
+        if after {
+            // what the other instance did came after the request's own (committed) effect
+            self.finish(prep, raw, now, Some(calls));
+            let post = self.intrusion_lines(now);
+            self.l1.out.extend(post);
+        } else {
+            let pre = self.intrusion_lines(now);
+            self.l1.out.extend(pre);
+            self.finish(prep, raw, now, Some(calls));
+        }
     }
 
     /// if the armed intrusion fired during the request(s) just run: the lines of what the other instance did
@@ -586,6 +594,21 @@ impl HCtx {
                 let sched: Vec<String> = sched_s.split_whitespace().map(|x| x.to_string()).collect();
                 self.conc(mode, reqs, sched);
             }
+            ["slowcall", k, ms] => {
+                // a slow disk: storage call number K of the next request takes MS milliseconds longer, then succeeds
+                let st = self.l1.store.as_ref().expect("slowcall needs the wrapper").clone();
+                st.set_delay(k.parse().unwrap(), ms.parse().unwrap());
+            }
+            ["intrudeafter", n, c, "snap", "stored", pl] => {
+                // right AFTER the N-th transaction from now has committed (and before the request that made it has
+                // finished), another instance stores a snapshot for the version that is then the client's latest
+                let c: u32 = c.parse().unwrap();
+                let cu = self.l1.client(c);
+                let data = self.l1.payload(pl);
+                let st = self.l1.store.as_ref().expect("intrude needs the wrapper").clone();
+                *st.intrude.lock().unwrap() = Some(crate::store::Intrude { at_begin: n.parse().unwrap(), client: cu, version: Uuid::nil(), data: data.clone(), snap: Some(Uuid::nil()), after_commit: true, seen: 0, fired: false, failed: false });
+                self.intr = Some((c, data));
+            }
             ["intrude", n, c, "snap", vspec, pl] => {
                 // ... or (snap SPEC): the other instance stores a snapshot for version SPEC of client C — a version the
                 // acceptance rule admits (the case sees to that), stamped with the current time
@@ -594,7 +617,7 @@ impl HCtx {
                 let sv = self.l1.resolve(vspec);
                 let data = self.l1.payload(pl);
                 let st = self.l1.store.as_ref().expect("intrude needs the wrapper").clone();
-                *st.intrude.lock().unwrap() = Some(crate::store::Intrude { at_begin: n.parse().unwrap(), client: cu, version: sv, data: data.clone(), snap: Some(sv), seen: 0, fired: false, failed: false });
+                *st.intrude.lock().unwrap() = Some(crate::store::Intrude { at_begin: n.parse().unwrap(), client: cu, version: sv, data: data.clone(), snap: Some(sv), after_commit: false, seen: 0, fired: false, failed: false });
                 self.intr = Some((c, data));
             }
             ["intrude", n, c, pl] => {
@@ -604,7 +627,7 @@ impl HCtx {
                 let cu = self.l1.client(c);
                 let data = self.l1.payload(pl);
                 let st = self.l1.store.as_ref().expect("intrude needs the wrapper").clone();
-                *st.intrude.lock().unwrap() = Some(crate::store::Intrude { at_begin: n.parse().unwrap(), client: cu, version: Uuid::new_v4(), data: data.clone(), snap: None, seen: 0, fired: false, failed: false });
+                *st.intrude.lock().unwrap() = Some(crate::store::Intrude { at_begin: n.parse().unwrap(), client: cu, version: Uuid::new_v4(), data: data.clone(), snap: None, after_commit: false, seen: 0, fired: false, failed: false });
                 self.intr = Some((c, data));
             }
             ["fixture", _name] | ["deadstart", _name] => {
